@@ -137,6 +137,9 @@ if MODEL:
         if z3.is_rational_value(d) and d.numerator_as_long() == 0:
             return True, None
         c = ctx()
+        from . import numfilter
+        if numfilter.distinct(c, ta, tb):
+            return False, None          # an exact counter-model of ta == tb that satisfies the path condition (contracts/numfilter.py)
         HOW["solver"] += 1
         c.solver.push()
         try:
